@@ -29,8 +29,8 @@ func StrideCoverage(p *load.Program, run *report.Run, pkgs []string) {
 			return
 		}
 		if cp := clampIn(c.pkg.TypesInfo, c.fd.Body.List, nil); cp != nil {
-			if n := len(c.fd.Body.List); n > 0 {
-				if _, ok := c.fd.Body.List[n-1].(*ast.ReturnStmt); ok {
+			if body := effective(c.pkg.TypesInfo, c.fd.Body.List); len(body) > 0 {
+				if _, ok := body[len(body)-1].(*ast.ReturnStmt); ok {
 					helpers[c.pkg.TypesInfo.Defs[c.fd.Name]] = helper{cp, c.pkg.TypesInfo}
 				}
 			}
@@ -54,7 +54,7 @@ func StrideCoverage(p *load.Program, run *report.Run, pkgs []string) {
 				capExpr = cp
 			} else {
 				// count := helper(N, i)
-				for _, st := range fs.Body.List {
+				for _, st := range effective(info, fs.Body.List) {
 					as, ok := st.(*ast.AssignStmt)
 					if !ok || len(as.Rhs) != 1 {
 						continue
@@ -112,6 +112,7 @@ func constOf(info *types.Info, e ast.Expr) string {
 // clampIn finds `x := A - B; if x > C { x = C }` (B the stride variable when given) or x := min(A-B, C)
 // at the top of a statement list and returns C.
 func clampIn(info *types.Info, list []ast.Stmt, iv types.Object) ast.Expr {
+	list = effective(info, list)
 	for idx, st := range list {
 		as, ok := st.(*ast.AssignStmt)
 		if !ok || len(as.Lhs) != 1 || len(as.Rhs) != 1 {
@@ -150,7 +151,11 @@ func clampIn(info *types.Info, list []ast.Stmt, iv types.Object) ast.Expr {
 			continue
 		}
 		ifs, ok := list[idx+1].(*ast.IfStmt)
-		if !ok || ifs.Else != nil || len(ifs.Body.List) != 1 {
+		if !ok || ifs.Else != nil {
+			continue
+		}
+		ibody := effective(info, ifs.Body.List)
+		if len(ibody) != 1 {
 			continue
 		}
 		cond, ok := ifs.Cond.(*ast.BinaryExpr)
@@ -161,7 +166,7 @@ func clampIn(info *types.Info, list []ast.Stmt, iv types.Object) ast.Expr {
 		if !ok || info.ObjectOf(cid) != info.ObjectOf(x) {
 			continue
 		}
-		set, ok := ifs.Body.List[0].(*ast.AssignStmt)
+		set, ok := ibody[0].(*ast.AssignStmt)
 		if !ok || len(set.Lhs) != 1 || len(set.Rhs) != 1 {
 			continue
 		}
